@@ -21,9 +21,11 @@ EXPLANATION = (
 DECLINED = ["'they do return once the target terminates' under arbitrary user schedulers (progress)"]
 ASSUMPTIONS = ["X1 memory orders of the atomic wrappers", "C02.R3: the joiner's BLOCKED state is published after its context is saved"]
 RULES_DOC = dict(common.SHARED_DOC)
+RULES_DOC["X9"] = common.X9_DOC
 RULES_DOC["R8"] = "= C01.R5: a unit cancelled in a yield-family callback is not pushed back to its pool (a joiner is released once and the terminated unit never runs again)"
 RULES_DOC["R9"] = "= C18.R6: a failed step leaves the descriptor it was given unchanged (a revive that fails does not leave a TERMINATED unit marked READY, on which a join or free would never return)"
 RULES_DOC["X4"] = common.X4_DOC
+RULES_DOC["R12"] = "contradiction rule: the result of the unchecked downcast ABTI_thread_get_ythread (a cast, never NULL) is nowhere tested against NULL -- such a test shows that ABTI_thread_get_ythread_or_null was meant, and a tasklet target of a join would be pushed through the ULT handshake and never wake its joiner"
 RULES_DOC["R11"] = "= C12.R3: a unit that suspends itself is not terminated inside its suspend callback: the termination half of the join handshake would wake the joiner while the target goes on to BLOCKED and terminates again later"
 RULES_DOC["R10"] = "= C06.R1-R4: a joiner that blocks is counted on the pool it will be resumed on, and is pushed before it stops being counted (a join whose caller is stranded in a dead pool never returns although the target terminated)"
 RULES_DOC.update({
@@ -593,7 +595,32 @@ def rule_R7(P, rep):
     rep.need(n >= 3, "only %d per-element call sites" % n)
 
 
+def rule_R12(P, rep):
+    """Contradiction rule: ABTI_thread_get_ythread is a plain cast and never yields NULL; code that tests its result
+    against NULL believes it called ABTI_thread_get_ythread_or_null -- for a tasklet the ULT branch is taken (the join
+    handshake registers a joiner that a tasklet's termination never wakes)."""
+    from abtverif import ctrldep
+    calls = sum(len(F.calls("ABTI_thread_get_ythread")) for F in P.functions.values())
+    rep.need(calls >= 20, "only %d uses of the unchecked ULT downcast" % calls)
+    bad = []
+    for F in sorted(P.functions.values(), key=lambda f: (f.file, f.line)):
+        for bid, B in sorted(F.blocks.items()):
+            if B.tc is None or B.tk == "SwitchStmt":
+                continue
+            for leaf in ctrldep._operands(F, B.tc):
+                lab, _flip = canon.cond(F, leaf)
+                if re.match(r"^ABTI_thread_get_ythread\(.*\)( == 0)?$", lab) and lab.count("(") == lab.count(")"):
+                    bad.append((F, leaf, lab))
+    for F, leaf, lab in bad:
+        rep.ob("R12", "%s does not test the unchecked ULT downcast against NULL" % F.name, False,
+               "`%s` is used as a condition: the cast never yields NULL, so the branch for tasklets / external threads is dead "
+               "and they are handled as ULTs" % lab, loc=F.loc(leaf), site="downcast-null-test/%s" % F.name)
+    rep.ob("R12", "no routine tests the result of ABTI_thread_get_ythread (a cast) against NULL", not bad,
+           "%d tests" % len(bad), loc="src", site="downcast-null-test")
+
+
 def run(P, rep, tier):
+    common.rule_X9(P, rep, fields=[('ABTI_thread', 'request')])
     common.rule_X4(P, rep)
     common.run_shared(P, rep, which=("X1",))
     rule_R1(P, rep)
@@ -611,3 +638,4 @@ def run(P, rep, tier):
     common.borrow(rep, P, C06.rule_R2, "R10")
     from . import C12
     common.borrow(rep, P, C12.rule_R3, "R11")
+    rule_R12(P, rep)
